@@ -53,7 +53,7 @@ CUTS_QUICK = ['none', 'midline', 'midchar', 'line', 'all']
 
 
 def runs(tier):
-    return 24 if tier == 'quick' else 1000
+    return 24 if tier == 'quick' else 480
 
 
 # ----------------------------------------------------------------------------- scenarios
